@@ -1,6 +1,6 @@
 (* C07 - secondary indexes never change what a query returns; unique indexes are enforced. *)
 From Coq Require Import List ZArith Permutation.
-From Verif Require Import Bytes Sem SemProofs Index.
+From Verif Require Import Bytes Sem SemProofs Index IndexMaint.
 Import ListNotations.
 
 (* the index entries let through for a condition never lose a value that satisfies the condition *)
@@ -41,3 +41,17 @@ Theorem C07_unique_rejects_exactly : forall s id v,
   (is_null v = false /\ exists j w, In (j, w) s /\ j <> id /\ veq w v = true).
 Proof. exact unique_rejects_exactly. Qed.
 Print Assumptions C07_unique_rejects_exactly.
+
+(* index maintenance, for every history of creates, updates, deletes (by id or by filter) and index creations /
+   removals before or after the data: the entries of the index are exactly the live documents with their current
+   values - so a lookup through the index returns what the scan returns, and a deleted document leaves nothing behind *)
+Theorem C07_index_maintained : forall (V : Type) (ops : list (mop V)),
+  Inv V (run V ops) /\
+  (forall P, indexed V (run V ops) = true -> lookup_index V P (run V ops) = lookup_scan V P (run V ops)) /\
+  (forall id, ~ In id (map fst (entries V (mstep V (run V ops) (MDelete V id))))) /\
+  (forall P e, In e (entries V (mstep V (run V ops) (MDeleteWhere V P))) -> P (snd e) = false).
+Proof.
+  intros V ops. split; [apply maintained|]. split; [intros P; apply index_lookup_is_scan|].
+  split; [apply deleted_leaves_no_entry | apply deleted_by_filter_leaves_no_entry].
+Qed.
+Print Assumptions C07_index_maintained.
